@@ -182,7 +182,9 @@ Definition monitor_call (p : prop_id) (u : universe) (earlier : list event) (f :
         | P06 => if c06_ok o then 0 else 61
         | P01 => if c01_ok u f b earlier o then 0 else 56
         | P03 => if c03_ok u f b o then 0 else 58
-        | P04 => if negb (c04_ok f o) then 59
+        | P04 => if co_panic o && existsb (fun e => match exec_err e with Some _ => true | None => false end) (co_events o)
+                 then 79   (* a function returned an error and the call PANICKED instead of returning it *)
+                 else if negb (c04_ok f o) then 59
                  else if c04_error_origin (known_funcs f b) earlier o then 0 else 77
         | _ =>
             match full_graph u f b false (oo_tape ob) with
